@@ -553,6 +553,17 @@ Definition fg_racy (cfg : config) (h : helper_res) (e : exec_end) : bool :=
   | _ => h_sleeper h
   end.
 
+(* a command that could not be started.  buildExecCmd looks a bare name up on PATH and gives up
+   BEFORE the standard input set by `stdin` is consumed; every other way of not starting (a
+   path with a slash -- or the empty word -- that cannot be executed, a current directory that
+   is gone) is met by cmd.Start, behind which ts.stdin is cleared *)
+Definition is_bare (prog : bytes) : bool :=
+  negb (has_slash prog) && match prog with [] => false | _ => true end.
+
+Definition start_failed_state (cfg : config) (st : state) (prog : bytes) : state :=
+  let st1 := set_outerr st [] [] in
+  if is_bare prog && negb (prog_found cfg st prog) then st1 else set_in st1 [].
+
 Definition cmd_exec (cfg : config) (neg : bool) (args : list bytes) (st : state) : outcome :=
   match args with
   | [] => Failed st
@@ -575,7 +586,7 @@ Definition cmd_exec (cfg : config) (neg : bool) (args : list bytes) (st : state)
                     let st1 := set_fs (set_in (set_outerr st [] []) []) (h_fs h) in
                     Done (mark_racy (set_bg st1 (s_bg st ++ [{| bg_name := name; bg_neg := neg; bg_proc := p |}])) (fs_changed || c_cancelled cfg))
                   else
-                    let st1 := set_outerr st [] [] in
+                    let st1 := start_failed_state cfg st prog in
                     if neg then Done st1 else Failed st1
               end
           end
@@ -586,7 +597,7 @@ Definition cmd_exec (cfg : config) (neg : bool) (args : list bytes) (st : state)
             let st1 := mark_racy (set_fs (set_in (set_outerr st (h_out h) (h_err h)) []) (h_fs h)) (fg_racy cfg h e) in
             if meets neg e then Done st1 else Failed st1
           else
-            let st1 := set_outerr st [] [] in
+            let st1 := start_failed_state cfg st prog in
             if neg then Done st1 else Failed st1
       end
   end.
